@@ -505,11 +505,13 @@ type zzC11Shape struct {
 	World   bool
 	Preview bool
 	Ref     string // the reference the requests share ("" = ref-1)
+	Cancel  bool   // the first client gives up at an arbitrary moment
 }
 
-var zzC11Shapes = []zzC11Shape{{2, false, false, ""}, {3, false, false, ""}, {2, true, false, ""}, {2, true, true, ""}, {2, false, true, ""},
+var zzC11Shapes = []zzC11Shape{{2, false, false, "", false}, {3, false, false, "", false}, {2, true, false, "", false}, {2, true, true, "", false}, {2, false, true, "", false},
 	// references a client may send with white space around them, or with odd characters
-	{2, false, false, " ref-1"}, {2, true, false, "ref-1\t"}, {2, false, false, "réf/1?x=&y"}}
+	{2, false, false, " ref-1", false}, {2, true, false, "ref-1\t", false}, {2, false, false, "réf/1?x=&y", false},
+	{2, false, false, "", true}, {2, true, false, "", true}}
 
 func ZZ_C11N() int { return len(zzC11Shapes) }
 
@@ -531,7 +533,7 @@ func ZZ_C11(shape int) {
 	}
 	var ops []zzOp
 	for i := 0; i < sh.N; i++ {
-		ops = append(ops, zzOp{Kind: zzKCreateScript, Amt: zzPosAmt(fmt.Sprintf("amt%d", i)), Ref: ref, Src: src, Tag: fmt.Sprintf("t%d", i)})
+		ops = append(ops, zzOp{Kind: zzKCreateScript, Amt: zzPosAmt(fmt.Sprintf("amt%d", i)), Ref: ref, Src: src, Tag: fmt.Sprintf("t%d", i), Cancel: sh.Cancel && i == 0})
 		if sh.Preview && i == 0 {
 			ops = append(ops, zzOp{Kind: zzKCreateScript, Amt: zzPosAmt("amt_preview"), Ref: ref, Src: src, Tag: "preview", DryRun: true})
 		}
